@@ -1018,18 +1018,28 @@ func (s *Service) ProcessRequest(ctx *core.Context, m map[string]interface{}, ou
 	case "/api/loc/facts/take": // Params: pattern
 		m["uri"] = "/api/loc/facts/search"
 		m["take"] = true
-		s.ProcessRequest(ctx, m, out)
+		if _, err := s.ProcessRequest(ctx, m, out); err != nil {
+			return nil, err
+		}
 
 	case "/api/loc/facts/replace": // Params: pattern, fact
 		// Really a 'take' followed by a 'add'.
+		if _, _, err := getMapParam(m, "fact", true); err != nil {
+			// Don't take anything if there is nothing to add.
+			return nil, err
+		}
 		m["uri"] = "/api/loc/facts/search"
 		m["take"] = true
 		core.Log(core.INFO, ctx, "service.ProcessRequest", "app_tag", "/api/loc/facts/replace", "phase", "take")
-		s.ProcessRequest(ctx, m, ioutil.Discard)
+		if _, err := s.ProcessRequest(ctx, m, ioutil.Discard); err != nil {
+			return nil, err
+		}
 
 		core.Log(core.INFO, ctx, "service.ProcessRequest", "app_tag", "/api/loc/facts/replace", "phase", "add")
 		m["uri"] = "/api/loc/facts/add"
-		s.ProcessRequest(ctx, m, out)
+		if _, err := s.ProcessRequest(ctx, m, out); err != nil {
+			return nil, err
+		}
 
 	case "/api/loc/facts/query": // Params: query
 		query, _, err := getMapParam(m, "query", true)
